@@ -946,9 +946,28 @@ class SharesManager(BaseManager):
             return username not in directory.users
         return False
 
+    def _get_containing_directory(self, item: SharedItem) -> Optional[SharedDirectory]:
+        """Returns the shared directory that currently holds the ``item``"""
+        for directory in self._shared_directories:
+            if item in directory.items:
+                return directory
+
+        return None
+
     def is_item_locked(self, item: SharedItem, username: str) -> bool:
-        """Checks if the shared item is locked for the given ``username``"""
-        return self.is_directory_locked(item.shared_directory, username)
+        """Checks if the shared item is locked for the given ``username``
+
+        The share mode of the shared directory currently holding the item is
+        used. This is not necessarily ``item.shared_directory``: adding or
+        removing a shared directory moves the items between the (sub)directory
+        and its parent without changing the items themselves. An item that is
+        not held by any shared directory is locked for everyone
+        """
+        directory = self._get_containing_directory(item)
+        if directory is None:
+            return True
+
+        return self.is_directory_locked(directory, username)
 
     async def report_shares(self):
         """Reports the shares amount to the server"""
